@@ -100,9 +100,33 @@ func runC13(r *Rng, n int, tier string) {
 			p.Opts["emit_json_tags"] = true
 			p.Opts["emit_db_tags"] = true
 		}
+		collide := false
+		var known []string
+		if p.RawSchema == "" && engine == "postgresql" && r.Chance(35) {
+			// independent declarations whose generated identifiers coincide: whatever the generator does about
+			// the clash, it must not depend on which declaration comes first
+			collide = true
+			switch r.Intn(4) {
+			case 0:
+				p.Enums = append(p.Enums, PEnum{"foo", []string{"bar_baz", "qux"}}, PEnum{"foo_bar", []string{"baz"}})
+			case 1:
+				p.Enums = append(p.Enums, PEnum{"level", []string{"a-b", "c"}}, PEnum{"level_a", []string{"b"}}, PEnum{"le", []string{"vel_c"}})
+			case 2:
+				known = []string{"dupStructOrder"}
+				p.Tables = append(p.Tables, PTable{Name: "item", Cols: []PCol{{Name: "id", Type: "bigint", NotNull: true}}},
+					PTable{Name: "items", Cols: []PCol{{Name: "id", Type: "bigint", NotNull: true}, {Name: "label", Type: "text"}}})
+			default:
+				p.Enums = append(p.Enums, PEnum{"shape", []string{"round"}})
+				p.Tables = append(p.Tables, PTable{Name: "shapes", Cols: []PCol{{Name: "id", Type: "bigint", NotNull: true}, {Name: "kind", Type: "shape"}}},
+					PTable{Name: "shape_round", Cols: []PCol{{Name: "id", Type: "bigint", NotNull: true}}})
+			}
+		}
 		base := p.Files()
 		ref := generate(base)
 		tags := []string{engine}
+		if collide {
+			tags = append(tags, "colliding-identifiers")
+		}
 		oracle := ""
 		var detail J
 		fail := func(msg string, files map[string]string, got GenResult) {
@@ -156,7 +180,7 @@ func runC13(r *Rng, n int, tier string) {
 			enums, tables := p.SchemaDecls()
 			for k := 0; k < 3 && len(tables)+len(enums) > 1; k++ {
 				files := p.Files()
-				files["schema.sql"] = strings.Join(append(append(permuted(r, enums), permuted(r, tables)...), p.Suffix...), "\n") + "\n"
+				files["schema.sql"] = strings.Join(append(append(permuted(r, enums), permuted(r, tables)...), p.DependentDecls()...), "\n") + "\n"
 				if got := generate(files); !same(got) {
 					fail("reordering independent table / enum declarations changes the output", files, got)
 				}
@@ -195,7 +219,7 @@ func runC13(r *Rng, n int, tier string) {
 		} else {
 			tags = append(tags, "failing-input")
 		}
-		emit(Case{ID: fmt.Sprintf("det-%d", i), Kind: "determinism", In: J{"files": base}, Impl: J{"ok": ref.OK()}, Oracle: oracle, Detail: detail, Tags: tags})
+		emit(Case{ID: fmt.Sprintf("det-%d", i), Kind: "determinism", In: J{"files": base}, Impl: J{"ok": ref.OK()}, Oracle: oracle, Detail: detail, Tags: tags, Known: known})
 	}
 }
 
